@@ -24,8 +24,9 @@ Definition outcome_eqb (a b : outcome) : bool :=
   end.
 (* listeners cannot tell the HTTP/1 dialler from the HTTP/2 dialler: TCP vs QUIC only *)
 Definition quic (s : stack) : bool := match s with S3 => true | _ => false end.
+Definition at_proxy (s : stack) : bool := match s with SP => true | _ => false end.
 Definition dial_eqb (a b : dial) : bool :=
-  Bool.eqb (quic (d_stack a)) (quic (d_stack b)) && bytes_eqb (d_sni a) (d_sni b) &&
+  Bool.eqb (quic (d_stack a)) (quic (d_stack b)) && Bool.eqb (at_proxy (d_stack a)) (at_proxy (d_stack b)) && bytes_eqb (d_sni a) (d_sni b) &&
   list_eqb bytes_eqb (d_alpn a) (d_alpn b).
 Definition altobs_eqb (a b : altobs) : bool :=
   match a, b with
@@ -47,7 +48,7 @@ Definition obs_eqb (a b : obs) : bool :=
    directed at an authority) *)
 Record c12_case := mkCase { k_env : env; k_host2 : bytes; k_ops : list (bool * op); k_obs : list obs }.
 
-Definition env2 (k : c12_case) : env := mkEnv (e_https (k_env k)) (k_host2 k) (e_srv (k_env k)).
+Definition env2 (k : c12_case) : env := mkEnv (e_https (k_env k)) (k_host2 k) (e_srv (k_env k)) (e_proxy (k_env k)).
 
 Definition c12_check (k : c12_case) : bool :=
   list_eqb obs_eqb (fst (run2 (k_env k) (env2 k) (new_client, new_client) (k_ops k))) (k_obs k).
@@ -55,3 +56,5 @@ Definition c12_check (k : c12_case) : bool :=
 (* shorthand for the emitter: a hello seen by a listener *)
 Definition hello (q : bool) (sni : bytes) (alpn : list bytes) : dial :=
   mkDial (if q then S3 else S1) sni alpn true.
+(* a hello seen by the proxy's TLS listener *)
+Definition phello (sni : bytes) (alpn : list bytes) : dial := mkDial SP sni alpn true.
